@@ -65,7 +65,7 @@ def triage_tb3(repo, res):
     from .. import tables
     problems = tables.tb3(repo)
     for f in list(res.findings):
-        if f.key == tables.TB3_TRIAGE_KEY:
+        if f.key == tables.TB3_TRIAGE_KEY or f.key.startswith(tables.TB3_TRIAGE_KEY.rstrip("*")):
             if not problems:
                 res.triage(f, "infeasible because TB3 holds: every multi-character comment pair of every grammar "
                               "class is in lex_multichar_comments.allowed_pairs")
@@ -99,6 +99,12 @@ def token_wsc_rule(repo, res):
     fc = repo.method("Token", "is_comment")
     ok = False
     for n in ast.walk(fc):
+        # `return any(self.startswith(pair[0]) and self.endswith(pair[1]) for pair in self.grammar.comments)`
+        if isinstance(n, ast.Call) and isinstance(n.func, ast.Name) and n.func.id == "any" and n.args and \
+                isinstance(n.args[0], ast.GeneratorExp) and isinstance(n.args[0].elt, ast.BoolOp) and isinstance(n.args[0].elt.op, ast.And):
+            attrs = {c.func.attr for c in ast.walk(n.args[0].elt) if isinstance(c, ast.Call) and isinstance(c.func, ast.Attribute)}
+            if {"startswith", "endswith"} <= attrs and "comments" in norm(n.args[0].generators[0].iter):
+                ok = True
         if isinstance(n, ast.If):
             attrs = {c.func.attr for c in ast.walk(n.test) if isinstance(c, ast.Call) and isinstance(c.func, ast.Attribute)}
             if {"startswith", "endswith"} <= attrs and isinstance(n.test, ast.BoolOp) and isinstance(n.test.op, ast.And):
